@@ -41,9 +41,13 @@ def partition_column(draw, name, kinds=("int", "float", "bool", "datetime", "tex
         col["tz"] = None
         per = DAY_NS // frames.UNIT_NS[col["unit"]]
         base = 18262 * per  # 2020-01-01
-        col["pool"] = draw(st.lists(st.sampled_from([base, base + per, base + 31 * per, base + per // 2,
-                                                     base + 3600 * (per // 86400), 0, base - 366 * per]),
-                                    min_size=1, max_size=4, unique=True))
+        cands = [base, base + per, base + 31 * per, base + per // 2, base + 3600 * (per // 86400), 0, base - 366 * per]
+        if col["unit"] == "ns":
+            # instants that differ only below the microsecond, and with a sub-second part
+            cands += [base + 1, base + 2, base + 1001, base + 123456789]
+        elif col["unit"] == "us":
+            cands += [base + 1, base + 1001]
+        col["pool"] = draw(st.lists(st.sampled_from(cands), min_size=draw(st.sampled_from([1, 2, 2])), max_size=4, unique=True))
     elif kind == "text":
         col["sub"] = draw(st.sampled_from(["object", "object", "str"]))
         col["pool"] = draw(st.lists(SAFE_TEXT, min_size=draw(st.sampled_from([1, 2, 2])), max_size=4, unique=True))
